@@ -245,3 +245,102 @@ func (v *FnVC) withLocalFrameExcept(fr *frame, st *State, skip map[string]Sort, 
 		v.sc.Assert(Implies(reach, Eq(Select(na, s.c.base, inner), Select(s.old, s.c.base, inner))))
 	}
 }
+
+// invisibleAllocs: allocations of fn whose cells a caller of fn can never observe: the address is only used
+// to load/store, or captured by closures that are only called or passed down as call arguments.
+func invisibleAllocs(fn *ssa.Function) map[*ssa.Alloc]bool {
+	out := map[*ssa.Alloc]bool{}
+	for _, b := range fn.Blocks {
+		for _, ins := range b.Instrs {
+			a, ok := ins.(*ssa.Alloc)
+			if !ok {
+				continue
+			}
+			seen := map[ssa.Value]bool{}
+			var addrEsc func(v ssa.Value) bool
+			addrEsc = func(v ssa.Value) bool {
+				if seen[v] {
+					return false
+				}
+				seen[v] = true
+				refs := v.Referrers()
+				if refs == nil {
+					return true
+				}
+				for _, r := range *refs {
+					switch u := r.(type) {
+					case *ssa.DebugRef:
+					case *ssa.UnOp:
+						if u.Op.String() != "*" {
+							return true
+						}
+					case *ssa.Store:
+						if u.Val == v {
+							return true
+						}
+					case *ssa.FieldAddr:
+						if u.X != v || addrEsc(u) {
+							return true
+						}
+					case *ssa.IndexAddr:
+						if u.X != v {
+							continue
+						}
+						if addrEsc(u) {
+							return true
+						}
+					case *ssa.BinOp:
+					case *ssa.MakeClosure:
+						// the closure may only be called or handed down
+						crefs := u.Referrers()
+						if crefs == nil {
+							return true
+						}
+						for _, cr := range *crefs {
+							switch cu := cr.(type) {
+							case *ssa.DebugRef:
+							case ssa.CallInstruction:
+								_ = cu
+							case *ssa.ChangeType:
+								// func type conversion, then must be a call argument
+								for _, r2 := range *cu.Referrers() {
+									if _, isCall := r2.(ssa.CallInstruction); !isCall {
+										if _, isDbg := r2.(*ssa.DebugRef); !isDbg {
+											return true
+										}
+									}
+								}
+							default:
+								return true
+							}
+						}
+					default:
+						return true
+					}
+				}
+				return false
+			}
+			if !addrEsc(a) {
+				out[a] = true
+			}
+		}
+	}
+	return out
+}
+
+func allocRoot(v ssa.Value, depth int) *ssa.Alloc {
+	if depth > 8 {
+		return nil
+	}
+	switch x := v.(type) {
+	case *ssa.Alloc:
+		return x
+	case *ssa.FieldAddr:
+		return allocRoot(x.X, depth+1)
+	case *ssa.IndexAddr:
+		if _, isPtr := under(x.X.Type()).(*types.Pointer); isPtr {
+			return allocRoot(x.X, depth+1)
+		}
+	}
+	return nil
+}
